@@ -537,6 +537,9 @@ func (x *sess) exec(op string) string {
 	if len(f) < 2 {
 		return "bad-op"
 	}
+	if ans, ok := x.execObj(f); ok {
+		return ans
+	}
 	if ans, ok := x.execChain(f); ok {
 		return ans
 	}
@@ -1049,6 +1052,11 @@ func main() {
 	for i := 0; i < 1500*r.Scale; i++ {
 		rng, sub := r.Rng.Fork()
 		genXCase(r, rng, sub)
+	}
+	// the Serializable-object calls: WriteObject / WritePayload / WriteSliceOfObjects and their readers
+	for i := 0; i < 1500*r.Scale; i++ {
+		rng, sub := r.Rng.Fork()
+		genObjCase(r, rng, sub)
 	}
 	rec.Finish(driverPath)
 	r.Finish()
